@@ -139,8 +139,9 @@ class C11(PropBase):
                         # junk must not conform to any template: ask the implementation (a conforming path is an entity, not junk)
                         probe = core.run_impl(ctx['ws'], [('path_owner', [roots[cfg] + '/' + jp, cfg]) for jp, _ in cand], confdir=ctx['confdir'])
                         for (jp, kind), pr in zip(cand, probe):
-                            if pr[0] == 'ok' and pr[1][0][1]:
-                                continue
+                            hidden = any(part.startswith('.') for part in jp.split('/'))
+                            if pr[0] == 'ok' and pr[1][0][1] and not hidden:
+                                continue      # (hidden names stay: sidecar files are junk by the property's own list, whatever they would resolve to)
                             more.append(Case('fs_put', [roots[cfg] + '/' + jp, kind] + ([[['a', 'b']]] if kind == 'json' else []), 'setup', {}))
                 # the list of existing Sids with all ancestors that have a path (per default configuration)
                 L = sorted(ent.get(default, {}).keys())
